@@ -94,14 +94,14 @@ EXTRA={
  'setScan': ['//@ touches C17', '//@ requires [C17,C13] count.positive: count >= 1', '//@ requires !scanStarted'],
  'lmpop': ['//@ loop "for _, keyName := range keyNames" invariant [C06] nomut: !mutated'],
  'addInt': ['//@ ghostafter "value, err = strconv.ParseInt" : gParsed = value',
-            '//@ ghostafter "value, err = strconv.ParseInt" : gParsedOK = (err == nil)',
+            '//@ ghostafter "canonical := strconv.FormatInt(value, 10)" : gParsedOK = (err == nil && canonical)',
             '//@ requires !gParsedOK',
             '//@ ensures [C02] overflow.iff: gParsedOK ==> ((exists == VALUE_OVERFLOW) == addOverflows64(gParsed, delta))',
             '//@ ensures [C02] sum: gParsedOK && exists != VALUE_OVERFLOW ==> value == gParsed + delta && exists == VALUE_EXISTS',
             '//@ ensures [C02] inert: (exists == VALUE_OVERFLOW || exists == VALUE_WRONG_TYPE || exists == VALUE_WRONG_FORMAT) ==> !mutated',
             '//@ ensures [C02] format: old(gParsedOK) == false && !gParsedOK && exists == VALUE_EXISTS ==> value == delta'],
  'fieldAddInt': ['//@ ghostafter "oldInt, err := strconv.ParseInt" : gParsed = oldInt',
-            '//@ ghostafter "oldInt, err := strconv.ParseInt" : gParsedOK = (err == nil)',
+            '//@ ghostafter "canonical := strconv.FormatInt(oldInt, 10)" : gParsedOK = (err == nil && canonical)',
             '//@ requires !gParsedOK',
             '//@ ensures [C04] overflow.iff: gParsedOK ==> ((ve == VALUE_OVERFLOW) == addOverflows64(gParsed, delta))',
             '//@ ensures [C04] sum: gParsedOK && ve != VALUE_OVERFLOW ==> value == gParsed + delta && ve == VALUE_EXISTS',
